@@ -1512,4 +1512,186 @@ Proof.
   - intros _ l X. left. rewrite T in X. exact X.
   - intros _ x X. rewrite T in X. eauto.
 Qed.
+
+Ltac frame_tac s0 ev0 :=
+  eapply QB_frame with (s := s0) (evs := ev0); auto; try (unfold keeps; simpl; repeat split; auto; fail).
+
+Lemma Q_tstep t0 s : GI w s -> IM o s -> Q s -> Q (tstep c w t0 s).
+Proof.
+  intros G I [N0 QQ]. unfold tstep.
+  destruct (thr s t0) as [| |l0| | |todo k|nm mf bf cur todo k|ok] eqn:E.
+  - (* start *)
+    split; [exact N0|]. simpl. intros H. specialize (QQ H). frame_tac s (@nil event); simpl.
+    + intros _ l X. destruct (t =? t0); [discriminate|left; exact X].
+    + intros _ x X. destruct (t =? t0); [discriminate|eauto].
+  - (* read len(sys.modules) *)
+    split; [exact N0|]. simpl. intros H. specialize (QQ H). frame_tac s (@nil event); simpl.
+    + intros _ l X. destruct (t =? t0); [|left; exact X]. inversion X; subst.
+      right. destruct QQ as (_ & _ & _ & LE & _). lia.
+    + intros _ x X. destruct (t =? t0); [discriminate|eauto].
+  - (* compare with the cache *)
+    destruct (l0 =? cache s) eqn:CMP.
+    + split; [exact N0|]. simpl. intros H. specialize (QQ H).
+      frame_tac s [EvRet t0 true]; simpl.
+      * intros NC [X|[]]. inversion X; subst t0.
+        destruct QQ as (_ & _ & _ & _ & _ & B3). destruct (B3 NC) as (CL & _ & RD & _).
+        specialize (RD _ E). apply Nat.eqb_eq in CMP. lia.
+      * intros _ l X. destruct (t =? t0); [discriminate|left; exact X].
+      * intros _ x X. destruct (t =? t0); [discriminate|eauto].
+    + split; [exact N0|]. simpl. intros H. specialize (QQ H). frame_tac s (@nil event); simpl.
+      * intros _ l X. destruct (t =? t0); [discriminate|left; exact X].
+      * intros _ x X. destruct (t =? t0); [discriminate|eauto].
+  - (* acquire *)
+    rewrite Hlock. destruct (lock s); [split; assumption|].
+    split; [exact N0|]. simpl. intros H. specialize (QQ H). frame_tac s (@nil event); simpl.
+    + intros _ l X. destruct (t =? t0); [discriminate|left; exact X].
+    + intros _ x X. destruct (t =? t0); [discriminate|eauto].
+  - (* snapshot *)
+    split; [exact N0|]. simpl. intros H. destruct (QQ H) as (F1 & F2 & MG & LE & LN & B3).
+    unfold QB; simpl. split; [exact F1|split; [reflexivity|split; [exact MG|split; [exact LE|split; [exact LN|]]]]].
+    intros NC. destruct (B3 NC) as (CL & _ & RD & _).
+    split; [exact CL|split; [left; apply m_get_In; exact MG|split]].
+    + intros l X. destruct (t =? t0); [discriminate|apply RD; exact X].
+    + intros x _. apply m_get_In. exact MG.
+  - destruct todo as [|nm todo].
+    + (* write the cache *)
+      assert (K1 : k = w_base w + length (g_snap_scan s)) by (eapply (@gi_K1 w s G t0 [] k); rewrite E; reflexivity).
+      assert (EQ : forall X : st, lock X = lock s -> g_nrem (release X t0) = g_nrem X /\ same_but_thr_lock X (release X t0)
+                     /\ thr (release X t0) = thr X /\ log (release X t0) = log X).
+      { intros X _. destruct (release_core X t0) as [A B]. destruct (release_fields X t0) as (_&_&_&L&_).
+        repeat split; try apply A; auto. unfold release. destruct (lock X) as [t'|]; [destruct (t' =? t0)|]; reflexivity. }
+      match goal with |- Q (add_log (set_thr (release ?X t0) t0 (PDone true)) _) =>
+        destruct (EQ X eq_refl) as (RN & (a&b&c0&f&g&h&i) & RT & RL); simpl in * end.
+      split; [simpl; rewrite RN; exact N0|]. simpl. rewrite RN. intros H.
+      destruct (QQ H) as (F1 & F2 & MG & LE & (new & LN & NR) & B3).
+      assert (WC : In (n, o) (g_snap_scan s) -> calledM s o).
+      { intros X. eapply write_called; eauto. }
+      unfold QB; simpl. rewrite a, c0, f, g, i, RT, RL. simpl.
+      split; [exact F2|split; [exact F2|split; [exact MG|split; [exact LE|split]]]].
+      * exists (EvRet t0 true :: new). split; [rewrite LN; reflexivity|].
+        intros NC [X|X].
+        -- inversion X; subst t0.
+           assert (NC' : ~ calledM s o).
+           { intros (a0 & d0 & Y). apply NC. exists a0, d0. simpl. rewrite RL. right. exact Y. }
+           destruct (B3 NC') as (_ & _ & _ & SC). apply NC'. apply WC. eapply SC. rewrite E. reflexivity.
+        -- assert (NC' : ~ calledM s o).
+           { intros (a0 & d0 & Y). apply NC. exists a0, d0. simpl. rewrite RL. right. exact Y. }
+           exact (NR NC' X).
+      * intros NC.
+        assert (NC' : ~ calledM s o).
+        { intros (a0 & d0 & Y). apply NC. exists a0, d0. simpl. rewrite RL. right. exact Y. }
+        destruct (B3 NC') as (CL & [IN|LT] & RD & SC); [elim NC'; apply WC; exact IN|].
+        split; [lia|split; [right; exact LT|split]].
+        -- intros l X. destruct (t =? t0); [discriminate|apply RD; exact X].
+        -- intros x X. destruct (t =? t0); [discriminate|eapply SC; exact X].
+    + (* visit *)
+      destruct (visit_spec c w t0 nm todo k s Hpop) as (_ & _ & LG & T & MO & CA & _ & SC & SS & NR & _ & _ & _ & SNS).
+      split; [rewrite NR; exact N0|]. rewrite NR. intros H. specialize (QQ H).
+      eapply QB_frame with (s := s) (evs := @nil event); auto.
+      * unfold keeps. rewrite SC, SS, MO. repeat split; auto.
+      * intros _ l X. rewrite T in X. unfold upd in X. destruct (t =? t0); [|left; exact X].
+        unfold visit_pc in X. destruct (some_or _ _); discriminate.
+      * intros _ x X. rewrite T in X. unfold upd in X. destruct (Nat.eqb_spec t t0); [|eauto].
+        subst. rewrite E. simpl. eauto.
+  - (* call *)
+    destruct (call_nrem c w t0 nm mf bf cur todo k s) as (A & CA & SS & B).
+    destruct (call_log c w t0 nm mf bf cur todo k s) as (evs & LG & EV).
+    destruct (call_spec c w t0 nm mf bf cur todo k s) as (_ & _ & (p' & T & PP) & _).
+    split; [lia|]. intros H. assert (H0 : g_nrem s = nrem0) by lia. specialize (QQ H0).
+    eapply QB_frame with (s := s) (evs := evs); auto.
+    + apply B. lia.
+    + intros _ X. apply EV in X. destruct X as [X|[[b X]|X]]; try discriminate.
+      unfold call_event in X. destruct mf; [discriminate|destruct bf; discriminate].
+    + intros _ l X. rewrite T in X. unfold upd in X. destruct (t =? t0); [|left; exact X].
+      destruct PP; subst p'; discriminate.
+    + intros _ x X. rewrite T in X. unfold upd in X. destruct (Nat.eqb_spec t t0); [|eauto].
+      subst. rewrite E. simpl. eauto.
+  - (* start again *)
+    split; [exact N0|]. simpl. intros H. specialize (QQ H). frame_tac s (@nil event); simpl.
+    + intros _ l X. destruct (t =? t0); [discriminate|left; exact X].
+    + intros _ x X. destruct (t =? t0); [discriminate|eauto].
+Qed.
 End Timely.
+
+Lemma pigeon (S M : list (nat * nat)) n o :
+  NoDup (map fst S) -> sub_ok S M -> ~ In n (map fst S) -> m_get M n = Some o -> length S < length M.
+Proof.
+  intros ND SO NI MG.
+  assert (INC : incl (n :: map fst S) (map fst M)).
+  { intros a [<-|H].
+    - change n with (fst (n, o)). apply in_map. apply m_get_In. exact MG.
+    - apply in_map_iff in H. destruct H as [[a' b] [<- H]]. simpl.
+      change a' with (fst (a', b)). apply in_map. apply m_get_In. apply SO. exact H. }
+  assert (ND2 : NoDup (n :: map fst S)) by (constructor; assumption).
+  pose proof (NoDup_incl_length ND2 INC) as LE. simpl in LE. rewrite !map_length in LE. lia.
+Qed.
+
+Lemma In_fst_ex (S : list (nat * nat)) n : In n (map fst S) -> exists b, In (n, b) S.
+Proof.
+  intros H. apply in_map_iff in H. destruct H as [[a b] [<- H]]. exists b. exact H.
+Qed.
+
+Theorem timely (w : world) (scanned : bool) (ls1 ls2 : list label) (t n o : nat) :
+  glue_pop_before_call = true -> glue_under_lock = true -> 1 <= w_base w ->
+  let s1 := run src_cfg w ls1 (init w scanned) in
+  (thr s1 t = PIdle \/ exists b, thr s1 t = PDone b) ->
+  pendingM w s1 n o -> g_since_cache s1 = false -> g_since_snap s1 = false ->
+  let s2 := run src_cfg w ls2 s1 in
+  g_nrem s2 = g_nrem s1 ->
+  forall new, log s2 = new ++ log s1 -> In (EvRet t true) new -> calledM s2 o.
+Proof.
+  intros Hp Hl Hb s1 IDLE (MG & GL & NP) F1 F2 s2 NR new LG RET.
+  assert (R1 : reachable src_cfg w scanned s1) by (exists ls1; reflexivity).
+  assert (G1 := @GI_reachable src_cfg w Hp Hl scanned s1 Hb R1).
+  set (QQ := Q w t n o (length (mods s1)) (g_nrem s1) (log s1)).
+  assert (Q1 : QQ s1).
+  { split; [apply le_n|]. intros _. unfold QB.
+    split; [exact F1|split; [exact F2|split; [exact MG|split; [apply le_n|split]]]].
+    - exists []. split; [reflexivity|]. intros _ [].
+    - intros _.
+      assert (NS : forall S, (forall b, In (n, b) S -> settled w s1 b) -> sub_ok S (mods s1) -> ~ In n (map fst S)).
+      { intros S ST SO H. apply In_fst_ex in H. destruct H as [b H].
+        assert (b = o) by (specialize (SO _ _ H); congruence). subst b.
+        destruct (ST o H) as [X|X]; [exact (GL X)|exact (NP X)]. }
+      split; [|split; [|split]].
+      + destruct (gi_A1 G1 F1) as [Z|Z]; [lia|]. rewrite Z.
+        assert (length (g_snap_cache s1) < length (mods s1)); [|lia].
+        eapply pigeon; [exact (gi_A4 G1)|exact (gi_A2 G1 F1)| |exact MG].
+        apply NS; [intros b H; exact (gi_A3 G1 F1 _ _ H)|exact (gi_A2 G1 F1)].
+      + destruct (in_dec Nat.eq_dec n (map fst (g_snap_scan s1))) as [IN|NIN].
+        * left. apply In_fst_ex in IN. destruct IN as [b H].
+          assert (b = o) by (pose proof (gi_K2 G1 F2 _ _ H); congruence). subst. exact H.
+        * right. eapply pigeon; [exact (gi_K4 G1)|exact (gi_K2 G1 F2)|exact NIN|exact MG].
+      + intros l X. destruct IDLE as [Y|[b Y]]; rewrite Y in X; discriminate.
+      + intros x X. destruct IDLE as [Y|[b Y]]; rewrite Y in X; discriminate. }
+  assert (STEP : forall ls s, reachable src_cfg w scanned s -> QQ s ->
+            reachable src_cfg w scanned (run src_cfg w ls s) /\ QQ (run src_cfg w ls s)).
+  { induction ls as [|l r IH]; intros s R H; [split; assumption|].
+    simpl. apply IH.
+    - destruct R as [ms E]. exists (ms ++ [l]). rewrite run_app. simpl. rewrite <- E. reflexivity.
+    - assert (G := @GI_reachable src_cfg w Hp Hl scanned s Hb R).
+      assert (I := IM_reachable (c := src_cfg) (w := w) Hp o R).
+      destruct l as [e|t0]; simpl; [apply Q_env; [exact Hb|exact H]|].
+      apply Q_tstep; auto. }
+  destruct (STEP ls2 s1 R1 Q1) as [R2 [_ Q2]]. fold s2 in Q2, R2.
+  destruct (Q2 NR) as (_ & _ & _ & _ & (new' & LN & NRT) & _).
+  assert (new' = new) by (rewrite LG in LN; apply app_inv_tail in LN; congruence). subst new'.
+  destruct (Nat.eq_dec (nM o (log s2)) 0) as [Z|NZ].
+  - exfalso. apply NRT; [|exact RET]. intros C. apply nM_calledM in C. lia.
+  - apply nM_calledM. lia.
+Qed.
+
+(* the hypotheses of [timely] are met by a 3-thread, 4-module history: thread 0 has completed a
+   scan of m0,m1; m2,m3 were imported afterwards; thread 1 is inside its scan, about to call m2's
+   glue; thread 2 has not started; m3's glue is pending *)
+Definition tm_world := mkworld 1 [OMod (Some (mkfn BOk [])); OMod (Some (mkfn BRaise [])); OMod (Some (mkfn BOk [])); OMod (Some (mkfn BOk []))] [].
+Definition tm_hist :=
+  [LEnv (EIR (IIns 0 0)); LEnv (EIR (IIns 1 1))] ++ repeat (LThr 0) 10 ++
+  [LEnv (EIR (IIns 2 2)); LEnv (EIR (IIns 3 3))] ++ repeat (LThr 1) 8.
+Example timely_hyp_met :
+  let s1 := run src_cfg tm_world tm_hist (init tm_world true) in
+  thr s1 0 = PDone true /\ is_pcall (thr s1 1) = true /\ thr s1 2 = PIdle
+  /\ pendingM tm_world s1 3 3 /\ g_since_cache s1 = false /\ g_since_snap s1 = false.
+Proof.
+  vm_compute. repeat split; try discriminate. intros [H|[H|[H|[]]]]; discriminate.
+Qed.
